@@ -1,6 +1,7 @@
 pub mod checks;
 pub mod content;
 pub mod crypt;
+pub mod env;
 pub mod families;
 pub mod infra;
 pub mod keys;
